@@ -144,6 +144,51 @@ pub fn run(rep: &mut Report, rng: &mut Rng, thorough: bool, seed: u64, outdir: &
         done += 1;
     }
     filters_part(rep, rng);
+    lzma_new_part(rep, rng);
+}
+
+/// every combination of the arguments of the general constructor `LZMAWriter::new(out, options, use_header,
+/// use_end_marker, expected_uncompressed_size)` (+ preset dictionary): refused, or a stream the reader a user would
+/// pair with it decodes - `.lzma` header: `LZMAReader::new_mem_limit`; raw: `LZMAReader::new` told the size exactly when
+/// the stream has no end marker (a raw stream without marker and without a size known out of band has no decoder)
+fn lzma_new_part(rep: &mut Report, rng: &mut Rng) {
+    let o = base();
+    for data in [gen_data(rng, "text", 700), vec![]] {
+        for use_header in [false, true] {
+            for use_marker in [false, true] {
+                for (ek, expected) in [("none", None), ("exact", Some(data.len() as u64)), ("more", Some(data.len() as u64 + 3))] {
+                    for preset in [None, Some(gen_data(rng, "text", 200))] {
+                        let mut o1 = o.clone();
+                        o1.preset = preset.clone();
+                        let point = format!("lzma_new=header:{use_header},marker:{use_marker},expected:{ek},preset:{}", preset.is_some());
+                        let (o2, d2) = (o1.clone(), data.clone());
+                        let r = guard(move || {
+                            let mut w = LZMAWriter::new(Vec::new(), &o2.to_opts(), use_header, use_marker, expected)?;
+                            std::io::Write::write_all(&mut w, &d2)?;
+                            w.finish()
+                        });
+                        if !data.is_empty() {
+                            // the model describes the constructor's decision alone (write / finish against a declared size: C18)
+                            let o3 = o1.clone();
+                            let r = guard(move || LZMAWriter::new(Vec::new(), &o3.to_opts(), use_header, use_marker, expected).map(|_| ()));
+                            rep.model(
+                                format!("opts.lzmanew dict={} lc={} lp={} pb={} nice={} header={} marker={} expected={} preset={}", o1.dict, o1.lc, o1.lp, o1.pb, o1.nice, use_header as u8, use_marker as u8,
+                                    match ek { "none" => "none", "exact" => "exact", _ => "more" }, preset.as_ref().map(|p| p.len().to_string()).unwrap_or("none".into())),
+                                match &r { Outcome::Ok(_) => "ok", Outcome::Err(std::io::ErrorKind::InvalidInput, _) => "err", Outcome::Err(std::io::ErrorKind::Unsupported, _) => "unsupported", Outcome::Err(..) => "err-other", Outcome::Panic(_) => "panic" }.to_string(),
+                            );
+                        }
+                        let fmt = match (use_header, use_marker) { (true, _) => LzmaFmt::HeaderSize, (false, true) => LzmaFmt::RawMarker, (false, false) => LzmaFmt::RawSize };
+                        verdict(rep, "lzma-new", &point, data.len(), r, |c| match lzma_decompress(&c, &o1, fmt, data.len() as u64, &[65536], data.len() + 16) {
+                            Outcome::Ok((d, _)) if d == data => Ok(()),
+                            other => Err(other.describe()),
+                        });
+                        rep.evaluations += 1;
+                        rep.case(format!("point:{point}"), true, || json!({"option_point": point}));
+                    }
+                }
+            }
+        }
+    }
 }
 
 /// Child: one option point.
